@@ -1,238 +1,19 @@
-"""Hand tool (not a check): generic behaviour-preserving edits applied one at a time to every function of the tree, all quick checks
-run in memory on each variant; prints which rules raise new findings (= refactor-brittle rules).
-usage: preserve_sweep.py [kind ...]   kinds: rename swapif log augassign"""
-import ast, os, sys, json, multiprocessing as mp
+"""Hand tool (not a check): generic behaviour-preserving edits (vt/sweep.py) applied one at a time to every function of the tree, all
+quick checks run in memory on each variant; prints which rules raise new findings (= refactor-brittle rules).
+usage: preserve_sweep.py [kind ...]   kinds: see vt.sweep.ALL_KINDS + EXTRA_KINDS"""
+import os, sys, multiprocessing as mp
 sys.path.insert(0, os.path.dirname(os.path.dirname(os.path.abspath(__file__))))
-from vt.core import Tree, REPO, AnalysisError
-from vt.selftest import swap_if_else
-
-KINDS = sys.argv[1:] or ["rename", "swapif", "log", "augassign"]
-
-
-def functions(mod):
-    for n in ast.walk(mod):
-        if isinstance(n, ast.FunctionDef):
-            yield n
-
-
-def gen_variants():
-    t = Tree()
-    out = []
-    for m in t.modules.values():
-        if m.short in ("log", "about", "key", "quic.udp_output_builder"):
-            continue
-        mod = ast.parse(m.src)
-        fns = list(functions(mod))
-        for fi, fn in enumerate(fns):
-            if "rename" in KINDS:
-                params = {a.arg for a in fn.args.args + fn.args.kwonlyargs}
-                locs = []
-                for n in ast.walk(fn):
-                    if isinstance(n, ast.Name) and isinstance(n.ctx, ast.Store) and n.id not in params and n.id not in locs:
-                        locs.append(n.id)
-                globs = {x for n in ast.walk(fn) if isinstance(n, ast.Global) for x in n.names}
-                for name in locs:
-                    if name in globs:
-                        continue
-                    out.append((m.relpath, "rename", fi, name))
-            if "swapif" in KINDS:
-                k = 0
-                for n in ast.walk(fn):
-                    if isinstance(n, ast.If) and n.orelse and not (len(n.orelse) == 1 and isinstance(n.orelse[0], ast.If)):
-                        out.append((m.relpath, "swapif", fi, k))
-                        k += 1
-            if "log" in KINDS:
-                out.append((m.relpath, "log", fi, 0))
-            if "swapand" in KINDS:
-                k = 0
-                for n in ast.walk(fn):
-                    if isinstance(n, ast.BoolOp) and len(n.values) == 2 and all(isinstance(v, (ast.Compare, ast.Name, ast.Attribute)) for v in n.values):
-                        out.append((m.relpath, "swapand", fi, k))
-                        k += 1
-            if "elsereturn" in KINDS:
-                k = 0
-                for n in ast.walk(fn):
-                    if isinstance(n, ast.If) and n.orelse and not (len(n.orelse) == 1 and isinstance(n.orelse[0], ast.If)) and n.body and isinstance(n.body[-1], (ast.Return, ast.Continue)):
-                        out.append((m.relpath, "elsereturn", fi, k))
-                        k += 1
-            if "noop" in KINDS:
-                out.append((m.relpath, "noop", fi, 0))
-            if "swapeq" in KINDS:
-                k = 0
-                for n in ast.walk(fn):
-                    if isinstance(n, ast.Compare) and len(n.ops) == 1 and isinstance(n.ops[0], (ast.Eq, ast.NotEq)):
-                        out.append((m.relpath, "swapeq", fi, k))
-                        k += 1
-            if "range0" in KINDS:
-                k = 0
-                for n in ast.walk(fn):
-                    if isinstance(n, ast.Call) and isinstance(n.func, ast.Name) and n.func.id == "range" and len(n.args) == 2 and isinstance(n.args[0], ast.Constant) and n.args[0].value == 0:
-                        out.append((m.relpath, "range0", fi, k))
-                        k += 1
-            if "temp" in KINDS:
-                k = 0
-                for n in ast.walk(fn):
-                    if isinstance(n, ast.Assign) and isinstance(n.value, ast.Call) and n.value.args and not isinstance(n.value.args[0], (ast.Constant, ast.Name, ast.Starred)):
-                        out.append((m.relpath, "temp", fi, k))
-                        k += 1
-            if "augassign" in KINDS:
-                k = 0
-                for n in ast.walk(fn):
-                    if isinstance(n, ast.AugAssign) and isinstance(n.target, (ast.Name, ast.Attribute)):
-                        out.append((m.relpath, "augassign", fi, k))
-                        k += 1
-    return out
-
-
-def apply(v):
-    rel, kind, fi, arg = v
-    src = open(os.path.join(REPO, rel)).read()
-    mod = ast.parse(src)
-    fn = list(functions(mod))[fi]
-    if kind == "rename":
-        # do not rename if nested function shares the name as a parameter, keep it simple
-        for n in ast.walk(fn):
-            if isinstance(n, ast.Name) and n.id == arg:
-                n.id = arg + "_rn"
-            elif isinstance(n, ast.arg) and n.arg == arg:
-                return None
-    elif kind == "swapif":
-        k = 0
-        for n in ast.walk(fn):
-            if isinstance(n, ast.If) and n.orelse and not (len(n.orelse) == 1 and isinstance(n.orelse[0], ast.If)):
-                if k == arg:
-                    new = swap_if_else(n)
-                    n.test, n.body, n.orelse = new.test, new.body, new.orelse
-                    break
-                k += 1
-    elif kind == "log":
-        idx = 1 if (fn.body and isinstance(fn.body[0], ast.Expr) and isinstance(fn.body[0].value, ast.Constant)) else 0
-        fn.body.insert(idx, ast.parse("logging.debug('enter')").body[0])
-        if "import logging" not in src:
-            mod.body.insert(0, ast.parse("import logging").body[0])
-    elif kind == "swapand":
-        k = 0
-        for n in ast.walk(fn):
-            if isinstance(n, ast.BoolOp) and len(n.values) == 2 and all(isinstance(v, (ast.Compare, ast.Name, ast.Attribute)) for v in n.values):
-                if k == arg:
-                    n.values.reverse()
-                    break
-                k += 1
-    elif kind == "elsereturn":
-        k = 0
-        done = False
-        for p in ast.walk(fn):
-            for fld in ("body", "orelse", "finalbody"):
-                lst = getattr(p, fld, None)
-                if not isinstance(lst, list):
-                    continue
-                for i, n in enumerate(lst):
-                    if isinstance(n, ast.If) and n.orelse and not (len(n.orelse) == 1 and isinstance(n.orelse[0], ast.If)) and n.body and isinstance(n.body[-1], (ast.Return, ast.Continue)):
-                        if k == arg and not done:
-                            tail = n.orelse
-                            n.orelse = []
-                            lst[i + 1:i + 1] = tail
-                            done = True
-                        k += 1
-                if done:
-                    break
-            if done:
-                break
-    elif kind == "noop":
-        idx = 1 if (fn.body and isinstance(fn.body[0], ast.Expr) and isinstance(fn.body[0].value, ast.Constant)) else 0
-        fn.body.insert(idx, ast.parse("unused_marker = 0").body[0])
-    elif kind == "swapeq":
-        k = 0
-        for n in ast.walk(fn):
-            if isinstance(n, ast.Compare) and len(n.ops) == 1 and isinstance(n.ops[0], (ast.Eq, ast.NotEq)):
-                if k == arg:
-                    n.left, n.comparators[0] = n.comparators[0], n.left
-                    break
-                k += 1
-    elif kind == "range0":
-        k = 0
-        for n in ast.walk(fn):
-            if isinstance(n, ast.Call) and isinstance(n.func, ast.Name) and n.func.id == "range" and len(n.args) == 2 and isinstance(n.args[0], ast.Constant) and n.args[0].value == 0:
-                if k == arg:
-                    n.args = n.args[1:]
-                    break
-                k += 1
-    elif kind == "temp":
-        k = 0
-        for n in ast.walk(fn):
-            if isinstance(n, ast.Assign) and isinstance(n.value, ast.Call) and n.value.args and not isinstance(n.value.args[0], (ast.Constant, ast.Name, ast.Starred)):
-                if k == arg:
-                    tmp = ast.Assign(targets=[ast.Name("tmp_arg", ast.Store())], value=n.value.args[0])
-                    n.value.args[0] = ast.Name("tmp_arg", ast.Load())
-                    for p in ast.walk(fn):
-                        for fld in ("body", "orelse", "finalbody"):
-                            lst = getattr(p, fld, None)
-                            if isinstance(lst, list) and n in lst:
-                                lst.insert(lst.index(n), tmp)
-                                break
-                    break
-                k += 1
-    elif kind == "augassign":
-        k = 0
-        for n in ast.walk(fn):
-            if isinstance(n, ast.AugAssign) and isinstance(n.target, (ast.Name, ast.Attribute)):
-                if k == arg:
-                    import copy
-                    load = copy.deepcopy(n.target)
-                    for x in ast.walk(load):
-                        if hasattr(x, "ctx"):
-                            x.ctx = ast.Load()
-                    newst = ast.Assign(targets=[n.target], value=ast.BinOp(left=load, op=n.op, right=n.value))
-                    # replace in parent: brute force
-                    for p in ast.walk(fn):
-                        for fld in ("body", "orelse", "finalbody"):
-                            lst = getattr(p, fld, None)
-                            if isinstance(lst, list) and n in lst:
-                                lst[lst.index(n)] = newst
-                    break
-                k += 1
-    ast.fix_missing_locations(mod)
-    return ast.unparse(mod), fn.name
-
-
-_base = None
+from vt import sweep
+from vt.props import PROPS
 
 
 def work(v):
-    global _base
-    from vt.check import run_property
-    from vt.props import PROPS
-    if _base is None:
-        t0 = Tree()
-        _base = {}
-        for p in PROPS:
-            c, res, viol, known = run_property(p, "quick", quiet=True, write=False, tree=t0, controls=False)
-            _base[p] = {(f.rule, f.construct) for f in viol + [k[0] for k in known]}
-    r = apply(v)
-    if r is None:
-        return (v, None, [])
-    new_src, fname = r
-    try:
-        compile(new_src, v[0], "exec")
-    except SyntaxError:
-        return (v, fname, [("-", "SYNTAX", "")])
-    tree = Tree(overrides={v[0]: new_src})
-    new = []
-    for p in PROPS:
-        try:
-            c, res, viol, known = run_property(p, "quick", quiet=True, write=False, tree=tree, controls=False)
-            for f in viol + [k[0] for k in known]:
-                if (f.rule, f.construct) not in _base[p]:
-                    new.append((p, f.rule, f.construct))
-        except AnalysisError as e:
-            new.append((p, "ANALYSIS-ERROR", str(e)[:120]))
-        except Exception as e:
-            new.append((p, "CRASH", f"{type(e).__name__}: {e}"[:120]))
-    return (v, fname, new)
+    return sweep._work((v, sorted(PROPS)))
 
 
 if __name__ == "__main__":
-    vs = gen_variants()
+    kinds = sys.argv[1:] or sweep.ALL_KINDS
+    vs = sweep.gen_variants(kinds=kinds)
     print(len(vs), "variants", file=sys.stderr)
     with mp.Pool(16) as pool:
         results = pool.map(work, vs, chunksize=4)
